@@ -157,14 +157,28 @@ def shrink_seg(case):
         yield dict(case, K=[row[1:] for row in K[1:]])
 
 
+def coq_seg(case, obs):
+    if 'exc' in obs:
+        return None
+    K = case['K']
+    return '(%s, %d%%nat, %s, %s%%nat)' % (coq_bool(case['mode'] == 0), len(K), coq_list(coq_list(q(v) for v in r) for r in K), coq_list(map(str, obs['out'])))
+
+
 S_SEG = Stream(
     name='segmentation', budget={'quick': 300, 'thorough': 3000},
-    rule=('optimalSegmentation(track, cost, glob_param, mode) on tracks of 3..9 observations with a table-driven cost function (integer / dyadic values, negative ones included, with and '
-          'without the global parameter), both modes; the returned list is compared with the model and with brute force on the matrix the function documents '
-          '(C[i,j] = cost(track, i, j-1), symmetrised by addition); non-trivial = at least 4 observations'),
-    imports=IMPORTS, case_type='bool * nat * list (list Q) * list nat', check_def=CHECK,
-    generate=gen_seg, run_impl=run_seg, coq_case=with_matrix(coq_case), oracle=with_matrix(oracle), shrink=shrink_seg,
-    nontrivial=lambda c, o: len(c['K']) >= 4, klass=lambda c, o: 'n=%d,mode=%d' % (len(c['K']), c['mode']))
+    rule=('optimalSegmentation(track, cost, glob_param, mode), optimalSimplification(track, cost, glob_param, mode) and simplify(track, cost, MODE_SIMPLIFY_FREE / FREE_MAXIMIZE, verbose) on tracks of '
+          '3..9 observations with a table-driven cost function (integer / dyadic values, negative ones included, with and without the global parameter), both modes; the returned list is compared '
+          'with the model of the delegating function (optimal_segmentation: the matrix is built inside the model from the cost table) through the documented criterion, and with brute force; '
+          'non-trivial = at least 4 observations'),
+    imports=IMPORTS + '\nFrom TL Require Import Proofs.Partition_seg.', case_type='bool * nat * list (list Q) * list nat',
+    check_def='''Fixpoint incr (l : list nat) : bool := match l with a :: ((b :: _) as r) => (a <? b)%nat && incr r | _ => true end.
+Definition ok (c : bool * nat * list (list Q) * list nat) : bool :=
+  let '(minimise, n, K, out) := c in
+  let cost := fun i j => nth (S j) (nth i K []) 0 in        (* cost(track, i, j) = K[i][j+1] *)
+  incr out && (hd 1%nat out =? 0)%nat && (last out 0%nat =? n - 2)%nat &&
+  Qeq_bool (seg_cost cost out) (seg_cost cost (optimal_segmentation minimise n cost)).''',
+    generate=gen_seg, run_impl=run_seg, coq_case=coq_seg, oracle=with_matrix(oracle), shrink=shrink_seg,
+    nontrivial=lambda c, o: len(c['K']) >= 4, klass=lambda c, o: '%s,n=%d,mode=%d' % (c.get('via', 'segmentation'), len(c['K']), c['mode']))
 
 # ------------------------------------------------------------------ stream stops: findStopsGlobal builds a reward matrix and maximises
 
